@@ -63,6 +63,7 @@ def siteTable : List (Gen.Site × Disposition × String) := [
   (⟨"validate.rs", "validate", "index(x . applicable_to [& Kind :: RefInto])"⟩, .total, "[bool; 6] indexed through `impl Index<&Kind>`: every Kind maps to 0..5"),
   (⟨"validate.rs", "validate", "index(x . applicable_to [& Kind :: OwnedInto])"⟩, .total, "[bool; 6] indexed through `impl Index<&Kind>`: every Kind maps to 0..5"),
   (⟨"validate.rs", "validate", "index(x . applicable_to [& Kind :: RefInto])"⟩, .total, "[bool; 6] indexed through `impl Index<&Kind>`: every Kind maps to 0..5"),
+  (⟨"validate.rs", "validate", "unwrap(p . container_ty . as_ref ())"⟩, .guarded, "`p.container_ty.is_none() ||` comes first in the same condition"),
   (⟨"validate.rs", "validate_error_instrs", "unreachable!(\"13\")"⟩, .guarded, "error_instrs only ever receives Misplaced / Misnamed / UnrecognizedWithError (the model's ErrInstr has exactly these)"),
   (⟨"validate.rs", "validate_member_error_instrs", "unreachable!(\"14\")"⟩, .guarded, "error_instrs only ever receives Misplaced / Misnamed / UnrecognizedWithError (the model's ErrInstr has exactly these)"),
   (⟨"validate.rs", "validate_struct_attrs", "unwrap(attr . err_ty . as_ref ())"⟩, .guarded, "`attr.err_ty.is_some()` checked in the same condition"),
@@ -98,7 +99,6 @@ def siteTable : List (Gen.Site × Disposition × String) := [
   (⟨"expand.rs", "get_ident", "unreachable!(\"19\")"⟩, .modelled, "expand.rs:ApplicableAttr::get_ident:unreachable(19)"),
   (⟨"expand.rs", "get_ident", "unreachable!(\"9\")"⟩, .modelled, "expand.rs:ApplicableAttr::get_ident:unreachable(9)"),
   (⟨"expand.rs", "get_field_name_or", "unreachable!(\"10\")"⟩, .modelled, "expand.rs:ApplicableAttr::get_field_name_or:unreachable(10)"),
-  (⟨"expand.rs", "get_stuff", "unreachable!(\"12\")"⟩, .modelled, "expand.rs:ApplicableAttr::get_stuff:unreachable(12)"),
   (⟨"expand.rs", "get_stuff", "unwrap(attr)"⟩, .guarded, "`attr.is_some_and(..)` checked in the condition"),
   (⟨"expand.rs", "get_stuff", "unwrap(ghost_attr . action . as_ref ())"⟩, .modelled, "expand.rs:ApplicableAttr::get_stuff:ghost action unwrap")]
 
@@ -408,4 +408,39 @@ theorem C16_ghost_child_paths_declared (s : Struct) (hv : validate (.struct s) =
       · exact mem_foldl_of_step _ _ _ _ (a, k) hx (fun y es hm => ext_ghostChildPass _ y es _ hm) hstep
     rw [hv] at this
     cases this
+/-! ### `get_stuff` (since fix 76b7206 total: a member instruction that says nothing means the default mapping) -/
+
+/-- C16 (former site `get_stuff:unreachable(12)`): the value of a mapped member is defined for every combination of
+    member name / expression, in every context -/
+theorem C16_getStuffInner_total (m : Option Member) (a : Option TS) (obj : TS) (fp : Member → TS) (ctx : ImplContext) (or : Member) :
+    ∃ ts, getStuffInner m a obj fp ctx or = .ok ts := by
+  unfold getStuffInner
+  repeat' split
+  all_goals exact ⟨_, rfl⟩
+
+/-- C16 (site `render_parent_child_fragment: field.ty.unwrap()`, since fix 0466684 reported): in an input that validation
+    accepts, a member with a `#[parent(..)]` list that some From conversion has to construct has a path type -/
+theorem C16_parent_member_has_type (input : DataType) (hv : validate input = []) (f : Field) (hf : DataTypeMember.field f ∈ input.members)
+    (hp : f.attrs.parentAttrs.any (parentNeedsType (attrsByKind input.attrs)) = true) :
+    f.ty.isSome = true := by
+  cases hty : f.ty with
+  | some t => rfl
+  | none =>
+    exfalso
+    have : ("Type of member " ++ f.member.str ++ " should be a path to a struct: #[parent(...)] constructs it in 'from' conversions.") ∈ validate input := by
+      unfold validate
+      simp only
+      apply ext_validateEnd
+      refine mem_foldl_of_step _ _ _ _ (DataTypeMember.field f) hf (fun y es hm => ext_validateMember _ _ _ _ y es _ hm) (fun es => ?_)
+      unfold validateMember
+      simp only
+      apply ext_validateMemberErrorInstrs
+      unfold parentTypePass
+      have hc : (f.ty.isNone && f.attrs.parentAttrs.any (parentNeedsType (attrsByKind input.attrs))) = true := by
+        rw [hty, hp]; rfl
+      rw [if_pos hc]
+      exact mem_insert_self _ _
+    rw [hv] at this
+    cases this
+
 end O2o
